@@ -289,6 +289,22 @@ def r6_inplace(idx, r):
             inplace = s.kind in ("subscript", "subscript-aug", "subscript-del", "mutcall", "aug")
             r.require(not inplace or copies, f"grid-state:{f.qualname}:{norm(s.stmt)[:60]}", f, node=s.stmt,
                       msg=f"`{norm(s.stmt)[:80]}` mutates {attr} in place, but backUp() saved that very object by reference: the backup changes with it and restoreBackup cannot undo the edit")
+    # (a'') the same through a nested subscript:  grid._bounds[2][:] = ...  (a part of the saved object is overwritten where it is)
+    for m in idx.modules.values():
+        if not m.name.startswith("armi.") or ".tests" in m.name:
+            continue
+        for f in m.all_funcs():
+            for st_ in walk_local(f.node):
+                tgts = st_.targets if isinstance(st_, ast.Assign) else ([st_.target] if isinstance(st_, ast.AugAssign) else [])
+                for t in tgts:
+                    depth, v = 0, t
+                    while isinstance(v, ast.Subscript):
+                        depth, v = depth + 1, v.value
+                    if depth >= 2 and isinstance(v, ast.Attribute) and v.attr in saved and v.attr != "_backup":
+                        n += 1
+                        r.require(copies, f"grid-state:{f.qualname}:{norm(st_)[:60]}", f, node=st_,
+                                  msg=f"`{norm(st_)[:80]}` overwrites a part of {v.attr} where it is, but backUp() saved that very object by reference: the backup changes with it and "
+                                      "restoreBackup cannot undo the edit (e.g. an axial expansion inside a retainState scope)")
     # (a') the same through a local alias:  z = grid._bounds[2]; z[:] = ...   (the alias IS the saved object or a part of it)
     MUT = {"sort", "append", "extend", "insert", "pop", "remove", "clear", "reverse", "fill", "resize", "put", "itemset", "update"}
     for m in idx.modules.values():
@@ -401,6 +417,30 @@ def r8_setter_siblings(idx, r):
         raise AnalysisError(f"Parameter.setter: {len(storing)} storing closures found, expected the default and the user-setter one")
 
 
+def r9_definitions_matched_by_identity(idx, r):
+    """The keep-set of a StateRetainer is a set of parameter DEFINITIONS; restoreBackup intersects it with the collection's own definitions.
+    Definitions of different levels share names (Block.power / Core.power, kInf, ...), and Parameter.__eq__ compares names: membership in a
+    set is by identity only as long as __hash__ mixes in id(self).  With a name-only hash, naming one level's definition keeps the same-named
+    parameter of every other level too."""
+    c = idx.cls("armi.reactor.parameters.parameterDefinitions.Parameter")
+    eq, hs = c.methods.get("__eq__"), c.methods.get("__hash__")
+    if eq is None and hs is None:
+        r.ok("Parameter:identity-semantics", c)
+        return
+    if eq is None or hs is None:
+        raise AnalysisError("Parameter defines only one of __eq__/__hash__")
+    eqt = " ".join(norm(x) for x in eq.node.body)
+    by_identity = " is " in eqt and ".name" not in eqt
+    ret = next((x for x in walk_local(hs.node) if isinstance(x, ast.Return) and x.value is not None), None)
+    has_id = ret is not None and any(isinstance(x, ast.Call) and dotted(x.func) == "id" and x.args and norm(x.args[0]) == "self" for x in ast.walk(ret.value))
+    r.require(by_identity or has_id, "Parameter:set-membership-by-identity", hs, node=ret,
+              msg=f"Parameter.__hash__ is `{norm(ret.value) if ret is not None else '?'}` while __eq__ compares names: a keep-set naming only one level's definition of a shared name "
+                  "(power, kInf, ...) also matches the other levels' definitions, whose new values then survive the scope instead of being rolled back")
+    rb = idx.method("armi.reactor.parameters.parameterCollections.ParameterCollection", "restoreBackup")
+    r.require(any((isinstance(x, ast.Call) and call_attr(x) == "intersection") or (isinstance(x, ast.Compare) and any(isinstance(o, ast.In) for o in x.ops)) for x in ast.walk(rb.node)), "restoreBackup:keep-set-membership", rb,
+              msg="restoreBackup selects the kept parameters by membership of the definition in the keep-set")
+
+
 def run(idx, chk):
     chk.explanation = (
         "C16: StateRetainer's enter/exit symmetry and traversal; every backUp/restoreBackup pair in the tree pushing and popping a stack with "
@@ -421,3 +461,5 @@ def run(idx, chk):
                  necessary="'after a reactor is made read-only ... no value changes'")
     chk.run_rule("R16.8", "every value-storing closure of Parameter.setter marks definition and collection as assigned", lambda r: r8_setter_siblings(idx, r), floor=2,
                  necessary="parameters named to be kept retain their new values (the keep-set is applied only when the collection reports an assignment)")
+    chk.run_rule("R16.9", "parameter definitions are matched against the keep-set by identity (hash mixes in id(self) while equality is by name)", lambda r: r9_definitions_matched_by_identity(idx, r), floor=2,
+                 necessary="exactly the parameters named in the keep-set keep their new values; everything else is rolled back")
